@@ -44,7 +44,7 @@ LEVEL_NOTE = (
     "when it is a rename; when source and destination are on different file systems the proxy performs the copy in observable chunks."
 )
 ASSUMPTIONS = [
-    "whole-second mtimes; 'older' means at least one second older",
+    "'older' means older by at least a whole-second boundary; a source later than the module within the same second may or may not trigger a rewrite; one earlier within the same second must not",
     "temporary files left beside the module are allowed; only the module path is constrained",
     "new-process recovery is executed once per distinct on-disk state (memoised by content hash)",
 ]
@@ -148,7 +148,7 @@ class Env:
                 finally:
                     os.close(fd)
                 os.unlink(src)
-            os.utime(dst, (env.clock.now, env.clock.now))
+            os.utime(dst, (env.stamp(), env.stamp()))
             return dst
 
         self.sm.set(
@@ -170,6 +170,11 @@ class Env:
         self._old_dwb = sys.dont_write_bytecode
         sys.dont_write_bytecode = not pyc
         self.reset_tree()
+
+    def stamp(self):
+        """mtime given to a module file written now: the simulated second plus a fixed fraction, so that source mtimes
+        can fall earlier or later within the same second"""
+        return self.clock.now + 0.7
 
     # ---- tree
     def reset_tree(self):
@@ -212,7 +217,7 @@ class Env:
         except OSError:
             after = None
         if after is not None and after != before and self.sched is None:
-            os.utime(self.modpath, (self.clock.now, self.clock.now))
+            os.utime(self.modpath, (self.stamp(), self.stamp()))
         return t
 
     def _writer(self, source, path):
@@ -221,7 +226,7 @@ class Env:
         os.write(fd, source)
         os.close(fd)
         os.rename(name, path)
-        os.utime(path, (self.clock.now, self.clock.now))
+        os.utime(path, (self.stamp(), self.stamp()))
 
     def snapshot(self):
         """(relative path -> (bytes, mtime_ns)) of the mods tree and the source"""
@@ -468,8 +473,9 @@ class HWorld:
             e.clock.now += 1
         elif kind == "src":
             _, v, rel = ev
-            base = self.mod["mtime"] if self.mod else e.clock.now
-            mt = base + {"older": -1, "equal": 0, "newer": 1}[rel]
+            base = self.mod["mtime"] if self.mod else e.stamp()
+            sec = float(int(base))
+            mt = {"older": base - 1, "equal": base, "newer": base + 1, "samesec-earlier": sec + 0.35, "samesec-later": sec + 0.9}[rel]
             e.write_src(v, mt)
             self.src = (v, mt)
         elif kind == "rm_module":
@@ -497,7 +503,12 @@ class HWorld:
                 os.utime(e.modpath, (mt, mt))
                 self.mod["mtime"] = mt
         elif kind == "construct":
-            due = self.mod is None or self.mod["mtime"] < self.src[1] or not self.mod["magic_ok"]
+            if self.mod is None or not self.mod["magic_ok"] or int(self.mod["mtime"]) < int(self.src[1]):
+                due = True
+            elif self.mod["mtime"] >= self.src[1]:
+                due = False
+            else:
+                due = None  # the source is later than the module by a fraction of the same second: either is accepted
             before = e.module_bytes()
             before_mt = os.stat(e.modpath).st_mtime_ns if before is not None else None
             e.writer_calls = []
@@ -509,18 +520,23 @@ class HWorld:
                 return "construct:exception", viols
             after = e.module_bytes()
             after_mt = os.stat(e.modpath).st_mtime_ns if after is not None else None
+            if due is None:
+                due = after != before or after_mt != before_mt
+                out_tag = ":samesec"
+            else:
+                out_tag = ""
             if due:
-                out = "construct:rewrite"
+                out = "construct:rewrite" + out_tag
                 exp = self.expected_bytes(self.src[0], e.clock.now)
                 if after != exp:
                     viols.append(("history:rewrite-missing-or-wrong", "a stale/missing/foreign module file is rewritten from the current source", "module for %s" % self.src[0], "unchanged" if after == before else "other bytes"))
                 if self.cfg["writer"]:
                     if len(e.writer_calls) != 1 or e.writer_calls[0] != (exp, e.modpath):
                         viols.append(("history:writer-call", "module_writer is called once with (encoded module, path) when a rewrite is due", "1 call with the encoded module", "%d calls" % len(e.writer_calls)))
-                self.mod = {"gen": self.src[0], "magic_ok": True, "mtime": e.clock.now, "bytes": after}
+                self.mod = {"gen": self.src[0], "magic_ok": True, "mtime": e.stamp(), "bytes": after}
                 want = marker(self.src[0])
             else:
-                out = "construct:reuse"
+                out = "construct:reuse" + out_tag
                 if after != before or after_mt != before_mt:
                     viols.append(("history:needless-rewrite", "an up-to-date module file is reused unchanged", "unchanged bytes and mtime", "rewritten"))
                     self.mod = {"gen": self.src[0], "magic_ok": True, "mtime": after_mt // 10**9, "bytes": after}
@@ -561,7 +577,7 @@ class HWorld:
 def h_events(cfg):
     ev = [("tick",), ("construct",), ("rm_module",), ("corrupt_module",), ("touch_module", "older"), ("touch_module", "newer")]
     for v in ("A", "B", "C"):
-        for rel in ("older", "equal", "newer"):
+        for rel in ("older", "equal", "newer") + (("samesec-earlier", "samesec-later") if v == "B" else ()):
             ev.append(("src", v, rel))
     return ev
 
